@@ -3,7 +3,8 @@
   what sits at output paths.
   Model: GrogModel/Exec.lean, GrogModel/Build.lean.
 -/
-import GrogModel.Lemmas.BuildNoop
+import GrogModel.Lemmas.BuildReexec
+import GrogModel.DirVal
 set_option linter.unusedSectionVars false
 set_option linter.unusedVariables false
 set_option linter.unusedSimpArgs false
@@ -88,6 +89,13 @@ theorem restore_total (t : Target) (r : Result κ) (c : Cache κ) (fs fs' : FS) 
     (restore t r c fs).isSome = (restore t r c fs').isSome := by
   unfold restore; split <;> rfl
 
+/-- the directory case of `restore_total`, on directory values as sets of entries (`GrogModel/DirVal.lean`): what
+    `Load` leaves is the stored tree whatever was at the destination — absent, stale extra entries (also symlinks),
+    modified or missing entries — so the stored value alone decides. -/
+theorem dir_restore_total (cur cur' : Option DirVal.Tree) (stored : DirVal.Tree) :
+    DirVal.restoreDir cur stored = stored ∧ DirVal.restoreDir cur stored = DirVal.restoreDir cur' stored :=
+  ⟨DirVal.restoreDir_exact cur stored, DirVal.restoreDir_ignores_destination cur cur' stored⟩
+
 /-- **key_location_free.** The key-state has no field for the workspace root, the time or the host; of the
     workspace it contains only the contents of the resolved inputs. -/
 theorem key_location_free (P : Params κ) (t : Target) (fs fs' : FS) (ohs : List (OH κ))
@@ -121,6 +129,33 @@ theorem reexec_subset (P : Params κ) (cfg : Cfg) (defs : Defs) (fuel : Nat) (t 
   obtain ⟨ohs, ho, _⟩ := executes_only_if P cfg defs fuel t s hm hex
   refine ⟨ohs, ho, fun r hr ⟨hv, hb⟩ => hex ?_⟩
   exact unchanged_not_executed P cfg defs fuel t s hm ohs ho r hr hv hb hc hta hn hch
+
+/-- **reexec_subset_history** (history level; early cut-off included). After a successful build, edit anything — definitions,
+    input files, check files, and arbitrary content at output paths — and build again (mode `all`, cache enabled, same
+    selection). Let `D` be any set of targets that contains every target whose definition, resolved inputs or check files
+    were touched and that is closed under dependants. Then the second build executes only targets of `D`; every target
+    outside `D` is restored from the cache with the output hash it had, so its dependants' keys are unchanged
+    (`noop_rebuild_partial` is the case `D = ∅`). -/
+theorem reexec_subset_history {P : Params κ} (hG : Good P) (cfg : Cfg) (w : World κ) (order : List Lbl)
+    (hwf0 : WF w.defs order) (hpl0 : Plain P cfg w.defs order)
+    (hsucc : succeeded (build P cfg w order) order = true)
+    (defs' : Defs) (fs' : FS) (D : Lbl → Prop) (hwf : WF defs' order) (hpl : Plain P cfg defs' order)
+    (hsame : ∀ l ∈ order, ¬ D l → defs' l = w.defs l)
+    (hclosed : ∀ l ∈ order, ¬ D l → ∀ t, defs' l = some t → ∀ d ∈ t.deps, ¬ D d)
+    (hfs : ∀ l ∈ order, ¬ D l → ∀ t, defs' l = some t →
+      (∀ p ∈ t.inputs, fs' p = (build P cfg w order).fs p) ∧ (∀ c ∈ t.checks, fs' c.1 = (build P cfg w order).fs c.1)) :
+    ∀ x ∈ executed (build P cfg ⟨defs', fs', (build P cfg w order).cache⟩ order), D x := by
+  have hset := settled_run_aux hG hwf0 hpl0 (fuelFor order) order [] (start w) (by simp) (fun l hl => by simp at hl)
+  simp only [List.nil_append] at hset
+  have hok := (succeeded_iff _ order).1 hsucc
+  have hf : ∀ l ∈ order, ¬ D l → Settled P w.defs (build P cfg w order) l := fun l hl _ => hset l hl (hok l hl)
+  have h2 := after_run_aux hG hwf hpl (fuelFor order) D (build P cfg w order) hf hsame hwf0.label hclosed order []
+    (start ⟨defs', fs', (build P cfg w order).cache⟩) (by simp)
+    ⟨fun x hx => by simp [start] at hx, hfs, fun _ h => h, fun _ _ _ => rfl, fun _ _ _ _ _ _ _ => rfl, fun l hl => by simp at hl⟩
+  intro x hx
+  have hx' : x ∈ (build P cfg ⟨defs', fs', (build P cfg w order).cache⟩ order).log := by
+    simpa [executed] using hx
+  exact h2.log x hx'
 
 /-- the full no-op statement of the property (for reference; see `noop_rebuild_partial` and `globout_witness`) -/
 def noop_rebuild (P : Params κ) : Prop :=
